@@ -54,6 +54,26 @@ func (x Expr) rootedFilters(data any) Expr {
 	return x
 }
 
+// nestedRoot is rootedFilters for a path that is an operand of a script
+// evaluated with root as its document, so that a $ in a filter of that path
+// is the document as well and not what the path is applied to. Without a
+// document (Script.Eval) the path is left alone.
+func (x Expr) nestedRoot(root any) Expr {
+	if root == nil {
+		return x
+	}
+	return x.rootedFilters(root)
+}
+
+// rootOr is the document a $ in the script refers to, data unless the filter
+// has been given one.
+func (f *Filter) rootOr(data any) any {
+	if f.rooted {
+		return f.root
+	}
+	return data
+}
+
 // NewFilter creates a new Filter.
 func NewFilter(str string) (f *Filter, err error) {
 	defer func() {
